@@ -220,10 +220,18 @@ structure Selection (φ : Type) where
   hasRegex : Bool
   regexOk : φ → Bool
 
+/-- `list(dict.fromkeys(xs))`: drop repeated entries, keeping the first occurrence and the order -/
+def dedupFirst {φ : Type} [DecidableEq φ] : List φ → List φ
+  | [] => []
+  | x :: xs => x :: (dedupFirst xs).filter fun y => y ≠ x
+
 /-- the `filenames` handed to `parse_filenames_data`: `filenames_filter` wins over `filenames_lists`
-wins over the directory listing; then the regex filter.  `sortListing`: whether the code sorts the
-directory listing (the current tree does not: `list(self.root.glob("*.h5"))`). -/
-def selectFiles {φ : Type} (sortListing : Bool) (le : φ → φ → Bool) (sel : Selection φ) : Except Err (List φ) :=
+wins over the directory listing (`sorted(self.root.glob(...))`); repeated names are dropped keeping the
+first (`list(dict.fromkeys(...))`); then the regex filter.
+`sortListing` / `dedup`: whether the code sorts the listing / drops repeated names (the current tree does
+both; the pinned tree did neither). -/
+def selectFiles {φ : Type} [DecidableEq φ] (sortListing dedup : Bool) (le : φ → φ → Bool) (sel : Selection φ) :
+    Except Err (List φ) :=
   let base : Except Err (List φ) :=
     match sel.filter with
     | some fs => .ok fs
@@ -233,11 +241,15 @@ def selectFiles {φ : Type} (sortListing : Bool) (le : φ → φ → Bool) (sel 
       | none => .ok (if sortListing then sortFiles le sel.listing else sel.listing)
   match base with
   | .error e => .error e
-  | .ok fs => .ok (if sel.hasRegex then fs.filter sel.regexOk else fs)
+  | .ok fs =>
+    let fs := if dedup then dedupFirst fs else fs
+    .ok (if sel.hasRegex then fs.filter sel.regexOk else fs)
 
-/-- the current tree: neither `H5SliceData` (`*.h5`) nor `CMRxReconDataset` (`*.mat`) sorts the listing -/
-def listingSortedCurrent : Bool := false
-def cmrListingSortedCurrent : Bool := false
+/-- the current tree: `H5SliceData` (`*.h5`) and `CMRxReconDataset` (`*.mat`) sort the listing and drop
+repeated names -/
+def listingSortedCurrent : Bool := true
+def cmrListingSortedCurrent : Bool := true
+def dedupCurrent : Bool := true
 
 /-- the dataset classes built on `H5SliceData` -/
 inductive H5Class where
@@ -255,9 +267,9 @@ def classParams (cls : H5Class) (crop : Bool) (sliceArg : FilterArg) (ctxArg : N
 
 /-- construction of an `H5SliceData`-based dataset: select the files, look up their slice counts
 (`nOf f = none`: missing / unreadable), parse. -/
-def buildH5 {φ : Type} [DecidableEq φ] (sortListing : Bool) (le : φ → φ → Bool) (sel : Selection φ)
+def buildH5 {φ : Type} [DecidableEq φ] (sortListing dedup : Bool) (le : φ → φ → Bool) (sel : Selection φ)
     (nOf : φ → Option Nat) (F : FilterArg) : Except Err (Parsed φ) :=
-  match selectFiles sortListing le sel with
+  match selectFiles sortListing dedup le sel with
   | .error e => .error e
   | .ok fs => parseChecked (fs.map fun f => (f, nOf f)) F
 
